@@ -832,6 +832,9 @@ func pathAvoiding(fn *ssa.Function, from ssa.Instruction, target, avoid func(ssa
 			}
 		}
 		for _, nx := range succs {
+			if pathEdgeFilter != nil && pathEdgeFilter(s.b, nx) {
+				continue
+			}
 			k := key{nx, s.b}
 			if !seen[k] {
 				seen[k] = true
